@@ -2427,7 +2427,7 @@ class XonshParser(Parser):
         if env_atom := self.env_atom():
             return env_atom
         self._reset(mark)
-        if a := self.help_atom():
+        if (self.negative_lookahead(self.token, "STRING")) and (a := self.help_atom()):
             return self.expand_help([a], **self.span(_lnum, _col))
         self._reset(mark)
         if search_path := self.search_path():
